@@ -1,6 +1,6 @@
 """C08 - no seeding path yields the all-zero state; zero seeds are remapped as documented."""
 from .. import terms as T, alg
-from ..harness import (Crate, State, Ref, ArrV, Struct, flat_leaves, Anchor, Unsupported, SymbolicLoop, sym_self, synth_call,
+from ..harness import (Crate, State, Ref, ArrV, Struct, flat_leaves, Anchor, Unsupported, SymbolicLoop, Diverged, symbolic_args, sym_self, synth_call,
                        same_value, ref_ty, ty_id)
 from ..ref import xoshiro as REF
 from .linear import Gen, RNGCORE, SEEDABLE, describe_diff
@@ -235,6 +235,79 @@ def check_xorshift(chk):
     return crate, g
 
 
+
+STEPPERS = {"next_u32", "next_u64", "fill_bytes", "try_next_u32", "try_next_u64", "try_fill_bytes", "jump", "long_jump"}
+
+
+def check_mutators(chk, crate, g, rule="R9"):
+    """R9: besides the stepping operations (powers of the engine's step: C07.R4/R5; jumps: C06) nothing reachable through the
+    public surface may change the state words other than by a GF(2)-linear bijection - a setter, a reset, `AsMut`, a public
+    field would make the all-zero state reachable by safe code.  Every method of the type that takes `&mut self` is
+    value-numbered on a symbolic state; public fields and methods handing out `&mut` into the value are reported as such"""
+    ident = g.ident
+    fields = g.adt["variants"][0]["fields"]
+    trows = None
+    try:
+        from .c07 import engine_of
+        from ..ref import xoshiro as XR
+        ref_ = XR.GENERATORS.get(ident) or (XR.XORSHIFT if ident == "XorShiftRng" else None)
+        if ref_ is not None:
+            trows = engine_of(crate, ident, ref_)["rows"]
+    except (Anchor, Unsupported, SymbolicLoop):
+        trows = None
+    pubf = [f["name"] for f in fields if f.get("pub")]
+    chk.ob(rule, "%s|no public state field" % ident, not pubf, "public fields: %s" % pubf, nontrivial=bool(pubf))
+    n = 0
+    tys = crate.tys
+    for im in crate.impls_of(g.path):
+        tr = im.get("trait")
+        if tr == "core::clone::Clone" or (tr or "").endswith("Deserialize"):
+            continue  # a copy of another generator of this type (C10) / a restored snapshot (C11)
+        for name, key in sorted(im["methods"].items()):
+            if name in STEPPERS and tr in (None, RNGCORE, "rand_core::TryRngCore"):
+                continue
+            b = crate.bodies.get(key)
+            if b is None or b["argc"] < 1:
+                continue
+            t1 = tys[b["locals"][1]]
+            if not (t1["k"] == "ref" and t1["mut"] and tys[t1["to"]]["k"] == "adt" and tys[t1["to"]]["def"] == g.path):
+                continue
+            n += 1
+            chk.body(key)
+            where = b["span"][0]
+            inst = "%s::%s" % (ident, name)
+            rt = tys[b["locals"][0]]
+            if rt["k"] in ("ref", "ptr") and rt["mut"]:
+                chk.ob(rule, inst + "|does not hand out a mutable reference into the generator", False, "returns %s" % rt["s"], where=where)
+                continue
+            ev = crate.evaluator()
+            st = State()
+            try:
+                ref, pre, oid = sym_self(ev, st, g.tyid, "self#state")  # (a name no argument can have)
+                args, objs = symbolic_args(ev, st, b)
+                ev.call_body(st, key, [ref] + args[1:])
+            except (Unsupported, SymbolicLoop, Diverged) as e:
+                chk.ob(rule, inst + "|state update", False, "not established: %s" % e, where=where)
+                continue
+            post = flat_leaves(st.objs[oid])
+            if len(post) == len(pre) and all(a is b_ for a, b_ in zip(post, pre)):
+                chk.ob(rule, inst + "|does not write the state", True, "", where=where, nontrivial=False)
+                continue
+            rows, consts, bad = T.linear_rows(post, pre) if all(isinstance(x, T.T) for x in post) else (None, None, None)
+            nbits = sum(x.w for x in pre)
+            ok = rows is not None and not any(consts) and alg.rank(rows) == nbits
+            chk.ob(rule, inst + "|writes the state only by a linear bijection (a non-zero state stays non-zero)", ok,
+                   "" if ok else "the new state is not a GF(2)-linear bijection of the old one (first word: %s)" % T.show(post[0], 3),
+                   where=where, sample={"type": ident, "method": name})
+            if ok and trows is not None:
+                # a bijection that commutes with the engine's step T is a power of T (T's minimal polynomial is primitive, C07, so
+                # the matrices commuting with T form the field GF(2)[T]): the method moves along the generator's own stream
+                comm = alg.matmul(rows, trows) == alg.matmul(trows, rows)
+                chk.ob(rule, inst + "|moves along the generator's own stream (its state map commutes with the step)", comm,
+                       "" if comm else "the state map does not commute with the engine's step: it is not a power of it", where=where)
+    return n
+
+
 def run(chk, tier):
     crate = Crate("rand_xoshiro")
     chk.config(crate.config)
@@ -244,6 +317,7 @@ def run(chk, tier):
             g = Gen(crate, ident)
             check_xoshiro_type(chk, crate, g, ref)
             check_zero_path_constant(chk, crate, g, ref)
+            check_mutators(chk, crate, g)
             cnt += 1
         except (Anchor, Unsupported, SymbolicLoop) as e:
             chk.ob("R1", "%s|from_seed" % ident, False, "not established: %s" % e)
@@ -253,6 +327,7 @@ def run(chk, tier):
         chk.ob("R5", "SplitMix64", False, "not established: %s" % e)
     try:
         xcrate, xg = check_xorshift(chk)
+        check_mutators(chk, xcrate, xg)
         cnt += 1
         from .c08_loops import check_redraw_loops
         check_redraw_loops(chk, xcrate, xg, "R8")
